@@ -24,7 +24,8 @@ import ZvbiModel.Generated.TtxLayout
   where a page is stored and emits `Event.put page`, every look-up emits `Aux.touch`, so the list
   can later be replaced by the C10 cache model (`ZvbiModel.Cache`) by replaying these events.
 * `Zvbi.Gen.ttx*` (Generated/TtxLayout.lean): array extents and the flags `ttxFixF21..F25` saying
-  which proposed repairs the current packet.c contains (the model follows them).
+  which proposed repairs the current packet.c contains (the model follows them;
+  also `ttxFixSerialErase` for commit 53b7b09 of the C02 builder).
 * `lopParityCheck`, `storeLop`, `sameHeader`, `sameClock`, `pageLanguage`, `unhamPageLink`,
   `parseMot`, `parsePop`, `parseBtt`, `parseMip`, `parseMpt`, `parseMptEx`, `parseAitBounds`,
   `convertDrcsBounds`, `convertPage`, `terminatedSlot`, `terminatePage`, `hdrRejected`,
@@ -576,55 +577,61 @@ def lopParityCheck (cv : Page) (rv : RawPage) : Page × RawPage :=
 
 def hdrText (row0 : List Nat) : List Nat := row0.drop 8
 
-/-- `store_lop (vbi, vtp)` -/
-def storeLop (s : St) (vtp : Page) : St × List Event :=
+/-- what `store_lop` decides from the rolling header comparison -/
+inductive HdrVerdict
+  /-- `vbi_chsw_reset (vbi, 0); return TRUE` -/
+  | reset
+  /-- `chswcd > 0`: return without storing -/
+  | skip
+  /-- store the page; `copy`: the header becomes the reference header (and is passed as
+      `raw_header`), `clearCd`: `chswcd = 0` -/
+  | store (copy clearCd roll hdrUpd : Bool) (clock : Option Bool) (pnOffset : Int)
+deriving DecidableEq, Repr, Inhabited
+
+def hdrVerdict (s : St) (vtp : Page) : HdrVerdict :=
   let roll0 := (vtp.flags &&& (C5_NEWSFLASH ||| C6_SUBTITLE ||| C7_SUPPRESS_HEADER ||| C9_INTERRUPTED
                   ||| C10_INHIBIT_DISPLAY)) == 0
                && (vtp.pgno ≤ 0x199 || vtp.flags &&& C11_MAGAZINE_SERIAL != 0)
                && isBcd vtp.pgno
   let raw0 := vtp.raw.getD 0 zeroRow
-  -- none = vbi_chsw_reset; some none = return without storing (chswcd > 0);
-  -- some (some (state, roll, hdrUpd, clock, pnOffset, rawHeader?)) = go on
-  let r : Option (Option (St × Bool × Bool × Option Bool × Int × Bool)) :=
-    if roll0 then
-      let first := s.hdrPgno == 0
-      let (res, j) := if first then sameHeader vtp.pgno raw0 raw0 else sameHeader vtp.pgno raw0 s.header
-      let pn : Int := if res == -2 then -1 else j
-      let hdrUpd := first
-      let clock := if first then true else !sameClock raw0 s.header
-      let copyHdr (s : St) : St :=
-        { s with hdrPgno := vtp.pgno, header := s.header.take 8 ++ hdrText raw0 }
-      if res == 1 then
-        some (some (copyHdr { s with chswcd := 0 }, true, hdrUpd, some clock, pn, true))
-      else if res == 0 && ((vtp.pgno ^^^ s.hdrPgno) &&& 0xF00) == 0 then
-        none
-      else if s.chswcd > 0 then
-        some none
-      else if res == -1 then
-        some (some (copyHdr s, true, hdrUpd, some clock, pn, true))
-      else
-        some (some (s, false, hdrUpd, some false, pn, false))
-    else some (some (s, false, false, none, -1, false))
-  match r with
-  | none => (chswReset s, [Event.chsw])
-  | some none => (s, [])
-  | some (some (s, roll, hdrUpd, clock, pn, rawHdr)) =>
-      -- page statistics
-      let ps := s.net.getStat vtp.pgno
-      let ps :=
-        if ps.pageType == PT_SUBTITLE then
-          if ps.charset == 0xFF then { ps with charset := intToU8 (pageLanguage s.net (some vtp) 0 0) } else ps
-        else if ps.pageType == PT_NO_PAGE || ps.pageType == PT_UNKNOWN then { ps with pageType := PT_NORMAL }
-        else ps
-      let ps := if ps.subcode ≥ 0xFFFE || vtp.subno > ps.subcode then { ps with subcode := vtp.subno % 65536 } else ps
-      let (n, e1) := s.net.setStat vtp.pgno (fun _ => ps)
-      let s := { s with net := n }
-      let (s', e2) := s.put vtp
-      let stored := vtp.pgno &&& 0xFF != 0xFF
-      let ev := if stored && s.mask then
-          [Event.ttxPage vtp.pgno vtp.subno roll hdrUpd clock pn (if rawHdr then some s.header else none)]
-        else []
-      (s', liftAux e1 ++ e2 ++ ev)
+  if roll0 then
+    let first := s.hdrPgno == 0
+    let (res, j) := if first then sameHeader vtp.pgno raw0 raw0 else sameHeader vtp.pgno raw0 s.header
+    let pn : Int := if res == -2 then -1 else j
+    let hdrUpd := first
+    let clock := if first then true else !sameClock raw0 s.header
+    if res == 1 then .store true true true hdrUpd (some clock) pn
+    else if res == 0 && ((vtp.pgno ^^^ s.hdrPgno) &&& 0xF00) == 0 then .reset
+    else if s.chswcd > 0 then .skip
+    else if res == -1 then .store true false true hdrUpd (some clock) pn
+    else .store false false false hdrUpd (some false) pn
+  else .store false false false false none (-1)
+
+/-- `store_lop (vbi, vtp)` -/
+def storeLop (s : St) (vtp : Page) : St × List Event :=
+  match hdrVerdict s vtp with
+  | .reset => (chswReset s, [Event.chsw])
+  | .skip => (s, [])
+  | .store copy clearCd roll hdrUpd clock pn =>
+    let s := if clearCd then { s with chswcd := 0 } else s
+    let s := if copy then
+        { s with hdrPgno := vtp.pgno, header := s.header.take 8 ++ hdrText (vtp.raw.getD 0 zeroRow) }
+      else s
+    -- page statistics
+    let ps := s.net.getStat vtp.pgno
+    let ps :=
+      if ps.pageType == PT_SUBTITLE then
+        if ps.charset == 0xFF then { ps with charset := intToU8 (pageLanguage s.net (some vtp) 0 0) } else ps
+      else if ps.pageType == PT_NO_PAGE || ps.pageType == PT_UNKNOWN then { ps with pageType := PT_NORMAL }
+      else ps
+    let ps := if ps.subcode ≥ 0xFFFE || vtp.subno > ps.subcode then { ps with subcode := vtp.subno % 65536 } else ps
+    let st := s.net.setStat vtp.pgno (fun _ => ps)
+    let s := { s with net := st.1 }
+    let stored := vtp.pgno &&& 0xFF != 0xFF
+    let ev := if stored && s.mask then
+        [Event.ttxPage vtp.pgno vtp.subno roll hdrUpd clock pn (if copy then some s.header else none)]
+      else []
+    ({ s with net := s.net.put vtp }, liftAux st.2 ++ [Event.put vtp] ++ ev)
 
 /-! ## link and table parsers -/
 
@@ -970,22 +977,19 @@ def parse27 (cv : Page) (v : View) (mag0 : Nat) : Page × Bool :=
   | none => (cv, false)
   | some designation =>
     if designation ≤ 3 then
-      let r : Option Page :=
-        if designation == 0 then
-          match v.g8 37 with
-          | none => none
-          | some control => some { cv with haveFlof := control >>> 3 }
-        else some cv
-      match r with
+      -- designation 0 also carries the link control byte (p[37])
+      let ctrl : Option Nat := if designation == 0 then v.g8 37 else some 0
+      match ctrl with
       | none => (cv, false)
-      | some cv =>
+      | some control =>
+        let flof := if designation == 0 then control >>> 3 else cv.haveFlof
         let link := (List.range 6).foldl (fun (l : List Link) i =>
           match unhamPageLink v (1 + 6 * i) mag0 with
           | some (pgno, subno) =>
             let idx := designation * 6 + i
             l.set idx { l.getD idx Link.ff with pgno := pgno, subno := subno }
           | none => l) cv.link
-        ({ cv with link := link }, true)
+        ({ cv with link := link, haveFlof := flof }, true)
     else if designation ≤ 5 then
       let (link, ok) := (List.range 6).foldl (fun (acc : List Link × Bool) i =>
         let (l, ok) := acc
@@ -1068,64 +1072,97 @@ def ext04 (ext : Ext) (designation : Nat) (bs : BitStream) : Ext × BitStream :=
 
 def rev5 (x : Nat) : Nat := rev8 x >>> 3
 
-/-- `parse_28_29 (vbi, p, cvtp, mag8, packet)` -/
-def parse2829 (s : St) (mag0 mag8 packet : Nat) (v : View) : St × List Aux × Bool :=
-  let cv := (s.rp mag0).page
+/-- what `parse_28_29` decides to do, before anything is written -/
+inductive X28Out
+  /-- return without a change -/
+  | nop (ret : Bool)
+  /-- X/28/0, X/28/4, M/29/0, M/29/4 with function LOP: update the extension from the bit stream -/
+  | ext04 (designation : Nat) (bs : BitStream)
+  /-- X/28/1, M/29/1: DRCS colour look-up table -/
+  | clut (bs : BitStream)
+  /-- X/28/3 on a page of unknown function: it becomes a (G)DRCS page with these PTU modes -/
+  | becomeDrcs (function : Nat) (modes : List Nat) (faults : List Aux)
+  /-- X/28/3 on a page which already is that kind of DRCS page -/
+  | drcsModes (modes : List Nat) (faults : List Aux)
+  /-- X/28/3 contradicting the page function -/
+  | discard
+deriving Repr, Inhabited
+
+def bsFaults (bs : BitStream) : List Aux := if bs.underrun then [Aux.fault "x28:triplets"] else []
+
+/-- the decisions of `parse_28_29 (vbi, p, cvtp, mag8, packet)` -/
+def x28Decide (cvFunction : Int) (packet : Nat) (v : View) : X28Out :=
   match v.g8 0 with
-  | none => (s, [], false)
+  | none => .nop false
   | some designation =>
     let err := (List.range 13).any fun j => (v.g24 j).isNone
     let bs : BitStream := ⟨v.u24, 0, 0, false⟩
-    -- select `ext`: the page's copy for X/28 (initialised from the magazine on first use), else the magazine's
-    let selectExt (cv : Page) : Ext × Page :=
-      let mext := (s.net.mag mag8).ext
-      if packet == 28 then
-        let cv := if cv.ext.designations == 0 then { cv with ext := mext } else cv
-        let cv := { cv with x28 := cv.x28 ||| (1 <<< designation) }
-        (cv.ext, cv)
-      else (mext, cv)
-    let storeExt (cv : Page) (ext : Ext) : St :=
-      if packet == 28 then s.setPage mag0 { cv with ext := ext }
-      else { s with net := s.net.setMag mag8 { s.net.mag mag8 with ext := ext } }
-    let ur (bs : BitStream) : List Aux := if bs.underrun then [Aux.fault "x28:triplets"] else []
     if designation == 0 || designation == 4 then
-      if err then (s, [], false) else
+      if err then .nop false else
       let (function, bs) := getBits bs 4
       let (_, bs) := getBits bs 3
-      if function != 0 && packet == 28 && cv.function != FN_UNKNOWN && cv.function != (function : Int) then (s, [], false)
-      else if function != 0 then (s, [], false)
-      else
-        let (ext, cv) := selectExt cv
-        let (ext, bs) := ext04 ext designation bs
-        (storeExt cv ext, ur bs, false)
+      if function != 0 && packet == 28 && cvFunction != FN_UNKNOWN && cvFunction != (function : Int) then .nop false
+      else if function != 0 then .nop false
+      else .ext04 designation bs
     else if designation == 1 then
       -- unrepaired code uses the triplets without looking at `err` (finding F25)
-      if ttxFixF25 && err then (s, [], false) else
-      let (ext, cv) := selectExt cv
-      let bs := { bs with rest := bs.rest.drop 1 }
-      let (a, bs) := getBitsN bs 5 8
-      let (b, bs) := getBitsN bs 5 32
-      let clut := ext.drcsClut.take 2 ++ a.map rev5 ++ b.map rev5
-      let ext := { ext with drcsClut := clut, designations := ext.designations ||| 2 }
-      (storeExt cv ext, ur bs, false)
+      if ttxFixF25 && err then .nop false else .clut { bs with rest := bs.rest.drop 1 }
     else if designation == 3 then
-      if packet == 29 then (s, [], true)
-      else if err then (s, [], false)
+      if packet == 29 then .nop true
+      else if err then .nop false
       else
         let (function, bs) := getBits bs 4
         let (_, bs) := getBits bs 3
-        if (function : Int) != FN_GDRCS && (function : Int) != FN_DRCS then (s, [], false)
-        else if cv.function == FN_UNKNOWN then
+        if (function : Int) != FN_GDRCS && (function : Int) != FN_DRCS then .nop false
+        else if cvFunction == FN_UNKNOWN then
           let (_, bs) := getBits bs 11
           let (modes, bs) := getBitsN bs 4 DRCS_PTUS
-          (s.setPage mag0 { cv with function := function, drcsMode := modes }, ur bs, true)
-        else if cv.function != (function : Int) then
-          (s.setPage mag0 { cv with function := FN_DISCARD }, [], false)
+          .becomeDrcs function modes (bsFaults bs)
+        else if cvFunction != (function : Int) then .discard
         else
           let (_, bs) := getBits bs 11
           let (modes, bs) := getBitsN bs 4 DRCS_PTUS
-          (s.setPage mag0 { cv with drcsMode := modes }, ur bs, true)
-    else (s, [], true)
+          .drcsModes modes (bsFaults bs)
+    else .nop true
+
+/-- select `ext`: the page's copy for X/28 (initialised from the magazine on first use and
+    marked in `x28_designations`), else the magazine's -/
+def selectExt (s : St) (mag0 mag8 packet designation : Nat) : Ext × Page :=
+  let cv := (s.rp mag0).page
+  let mext := (s.net.mag mag8).ext
+  if packet == 28 then
+    let cv := if cv.ext.designations == 0 then { cv with ext := mext } else cv
+    let cv := { cv with x28 := cv.x28 ||| (1 <<< designation) }
+    (cv.ext, cv)
+  else (mext, cv)
+
+def storeExt (s : St) (mag0 mag8 packet : Nat) (cv : Page) (ext : Ext) : St :=
+  if packet == 28 then s.setPage mag0 { cv with ext := ext }
+  else { s with net := s.net.setMag mag8 { s.net.mag mag8 with ext := ext } }
+
+/-- the DRCS CLUT of X/28/1: 8 + 32 five-bit entries, bit-reversed -/
+def clutFrom (ext : Ext) (bs : BitStream) : Ext × BitStream :=
+  let (a, bs) := getBitsN bs 5 8
+  let (b, bs) := getBitsN bs 5 32
+  ({ ext with drcsClut := ext.drcsClut.take 2 ++ a.map rev5 ++ b.map rev5,
+              designations := ext.designations ||| 2 }, bs)
+
+/-- `parse_28_29 (vbi, p, cvtp, mag8, packet)` -/
+def parse2829 (s : St) (mag0 mag8 packet : Nat) (v : View) : St × List Aux × Bool :=
+  let cv := (s.rp mag0).page
+  match x28Decide cv.function packet v with
+  | .nop r => (s, [], r)
+  | .ext04 designation bs =>
+    let se := selectExt s mag0 mag8 packet designation
+    let r := ext04 se.1 designation bs
+    (storeExt s mag0 mag8 packet se.2 r.1, bsFaults r.2, false)
+  | .clut bs =>
+    let se := selectExt s mag0 mag8 packet 1
+    let r := clutFrom se.1 bs
+    (storeExt s mag0 mag8 packet se.2 r.1, bsFaults r.2, false)
+  | .becomeDrcs function modes f => (s.setPage mag0 { cv with function := function, drcsMode := modes }, f, true)
+  | .drcsModes modes f => (s.setPage mag0 { cv with drcsMode := modes }, f, true)
+  | .discard => (s.setPage mag0 { cv with function := FN_DISCARD }, [], false)
 
 /-- `parse_8_30` restricted to the event mask bit TTX_PAGE -/
 def parse830 (s : St) (v : View) : St × Bool :=
@@ -1209,8 +1246,11 @@ def terminatedSlot (s : St) (mag0 pgno page : Nat) : Option Nat :=
   | none => none
   | some cmag =>
     let vtp0 := (s.rp cmag).page
-    if vtp0.flags &&& C11_MAGAZINE_SERIAL != 0 && vtp0.flags &&& C4_ERASE_PAGE == 0 then
-      if vtp0.pgno == pgno then none else some cmag
+    -- unrepaired code (before commit 53b7b09) took the serial branch only for pages without the
+    -- erase flag; now the flag is part of the "same page" test
+    if (if ttxFixSerialErase then vtp0.flags &&& C11_MAGAZINE_SERIAL != 0
+        else vtp0.flags &&& C11_MAGAZINE_SERIAL != 0 && vtp0.flags &&& C4_ERASE_PAGE == 0) then
+      if vtp0.pgno == pgno && (!ttxFixSerialErase || vtp0.flags &&& C4_ERASE_PAGE == 0) then none else some cmag
     else
       let v := (s.rp mag0).page
       if (v.pgno &&& 0xFF) == page && v.flags &&& C4_ERASE_PAGE == 0 then none else some mag0
@@ -1232,8 +1272,8 @@ def terminatePage (s : St) (mag0 pgno page : Nat) : St × List Event :=
         let (s, e) := s.put vtp                                 -- convert_drcs always TRUE
         (s, liftAux (convertDrcsBounds vtp.drcsMode) ++ e)
       else if fn == FN_MIP then
-        let (n, e) := parseMip s.net vtp
-        ({ s with net := n }, liftAux e)
+        let r := parseMip s.net vtp
+        ({ s with net := r.1 }, liftAux r.2)
       else if fn == FN_EACEM then (s, [])                        -- no VBI_EVENT_TRIGGER handler
       else s.put vtp
     let cur := (s.rp curr).page
@@ -1244,6 +1284,57 @@ def terminatePage (s : St) (mag0 pgno page : Nat) : St × List Event :=
 def hdrRejected (page : Nat) (sub12 sub34 fl : Int) : Bool :=
   page == 0xFF || (if ttxFixF21 then sub12 < 0 || sub34 < 0 else sub12 + sub34 * 256 < 0) || fl < 0
 
+/-- Accepted header, "Prepare for new page" (packet.c:2321-2516): the new content of the magazine's
+    assembly page, built from the cached copy or from scratch, and the new network record.
+    `cv0` already carries the new page number.  Last component: were the 40 header bytes copied. -/
+def headerPage (n : Net) (cv0 : Page) (page subpage fl : Nat) (row0 : List Nat) :
+    Page × Net × List Aux × Bool :=
+  let pgno := cv0.pgno
+  let cv := { cv0 with subno := subpage &&& 0x3F7F, national := rev8 fl &&& 7, flags := (fl <<< 16) + subpage }
+  let lookup : Option Page × Net × List Aux :=
+    if pgno != 0x1E7 && cv.flags &&& C4_ERASE_PAGE == 0 then n.get cv.pgno cv.subno 0xFFFFFFFF
+    else (none, n, [])
+  let (hit, n, e1) := lookup
+  let (cv, n, e2, copied) : Page × Net × List Aux × Bool :=
+    match hit with
+    | some q =>
+      let copyHdr := q.function == FN_UNKNOWN || q.function == FN_LOP
+      ({ cv with function := q.function, raw := if copyHdr then q.raw.set 0 row0 else q.raw,
+                 link := q.link, haveFlof := q.haveFlof, enh := q.enh, ext := q.ext,
+                 drcsMode := if q.function == FN_DRCS || q.function == FN_GDRCS then q.drcsMode else cv.drcsMode,
+                 lopPackets := q.lopPackets, x26 := q.x26, x27 := q.x27, x28 := q.x28 }, n, [], copyHdr)
+    | none =>
+      let cv := { cv with flags := cv.flags ||| C4_ERASE_PAGE }
+      let (cv, n, e, copied) : Page × Net × List Aux × Bool :=
+        if cv.pgno == 0x1F0 then
+          let (n, e) := n.setStat cv.pgno (fun ps => { ps with pageType := PT_TOP_PAGE })
+          ({ cv with function := FN_BTT }, n, e, false)
+        else if cv.pgno == 0x1E7 then
+          let (n, e) := n.setStat cv.pgno (fun ps => { ps with pageType := PT_DISP_SYSTEM, subcode := 0 })
+          ({ cv with function := FN_EACEM, raw := List.replicate 26 blankRow,
+                     enh := List.replicate ENH_SIZE Triplet.ff }, n, e, false)
+        else if page == 0xFD then
+          let (n, e) := n.setStat cv.pgno (fun ps => { ps with pageType := PT_SYSTEM })
+          ({ cv with function := FN_MIP }, n, e, false)
+        else if page == 0xFE then
+          let (n, e) := n.setStat cv.pgno (fun ps => { ps with pageType := PT_SYSTEM })
+          ({ cv with function := FN_MOT }, n, e, false)
+        else
+          ({ cv with function := FN_UNKNOWN, raw := row0 :: List.replicate 25 blankRow,
+                     link := List.replicate LINKS Link.ff, enh := List.replicate ENH_SIZE Triplet.ff,
+                     haveFlof := 0 }, n, [], true)
+      ({ cv with lopPackets := 1, x26 := 0, x27 := 0, x28 := 0 }, n, e, copied)
+  let (cv, n, e3) : Page × Net × List Aux :=
+    if cv.function == FN_UNKNOWN then
+      let fn := functionOfType n (n.getStat cv.pgno).pageType cv.pgno page
+      if fn != FN_UNKNOWN then
+        match convertPage n cv fn with
+        | (some cv', n, e) => (cv', n, e)
+        | (none, n, e) => (cv, n, e)
+      else (cv, n, [])
+    else (cv, n, [])
+  (cv, n, e1 ++ e2 ++ e3, copied)
+
 /-- packet 0 after the page number decoded.  Returns the result and whether the 40 header bytes
     were copied into `raw[0]` (then `raw[0][0..7]` are patched in by `finish`). -/
 def processHeader (s : St) (mag0 mag8 : Nat) (v : View) : Res × Bool :=
@@ -1251,66 +1342,23 @@ def processHeader (s : St) (mag0 mag8 : Nat) (v : View) : Res × Bool :=
   | none => (⟨desync s, [], false⟩, false)
   | some page =>
     let pgno := mag8 * 256 + page
-    let (s, ev) := terminatePage s mag0 pgno page
+    let t := terminatePage s mag0 pgno page
+    let s := t.1
     let cv := { (s.rp mag0).page with pgno := pgno }
     let s := { s.setPage mag0 cv with current := some mag0 }
     let sub12 := v.g16i 2
     let sub34 := v.g16i 4
     let fl := v.g16i 6
     if hdrRejected page sub12 sub34 fl then
-      (⟨s.setPage mag0 { cv with function := FN_DISCARD }, ev, false⟩, false)
+      (⟨s.setPage mag0 { cv with function := FN_DISCARD }, t.2, false⟩, false)
     else
-      let subpage := (sub12 + sub34 * 256).toNat
-      let fl := fl.toNat
-      let cv := { cv with subno := subpage &&& 0x3F7F, national := rev8 fl &&& 7, flags := (fl <<< 16) + subpage }
       let row0 := zeroRow.take 8 ++ (v.raw.drop 8)
-      let lookup : Option Page × Net × List Aux :=
-        if pgno != 0x1E7 && cv.flags &&& C4_ERASE_PAGE == 0 then s.net.get cv.pgno cv.subno 0xFFFFFFFF
-        else (none, s.net, [])
-      let (hit, n, e1) := lookup
-      let (cv, n, e2, copied) : Page × Net × List Aux × Bool :=
-        match hit with
-        | some q =>
-          let copyHdr := q.function == FN_UNKNOWN || q.function == FN_LOP
-          ({ cv with function := q.function, raw := if copyHdr then q.raw.set 0 row0 else q.raw,
-                     link := q.link, haveFlof := q.haveFlof, enh := q.enh, ext := q.ext,
-                     drcsMode := if q.function == FN_DRCS || q.function == FN_GDRCS then q.drcsMode else cv.drcsMode,
-                     lopPackets := q.lopPackets, x26 := q.x26, x27 := q.x27, x28 := q.x28 }, n, [], copyHdr)
-        | none =>
-          let cv := { cv with flags := cv.flags ||| C4_ERASE_PAGE }
-          let (cv, n, e, copied) : Page × Net × List Aux × Bool :=
-            if cv.pgno == 0x1F0 then
-              let (n, e) := n.setStat cv.pgno (fun ps => { ps with pageType := PT_TOP_PAGE })
-              ({ cv with function := FN_BTT }, n, e, false)
-            else if cv.pgno == 0x1E7 then
-              let (n, e) := n.setStat cv.pgno (fun ps => { ps with pageType := PT_DISP_SYSTEM, subcode := 0 })
-              ({ cv with function := FN_EACEM, raw := List.replicate 26 blankRow,
-                         enh := List.replicate ENH_SIZE Triplet.ff }, n, e, false)
-            else if page == 0xFD then
-              let (n, e) := n.setStat cv.pgno (fun ps => { ps with pageType := PT_SYSTEM })
-              ({ cv with function := FN_MIP }, n, e, false)
-            else if page == 0xFE then
-              let (n, e) := n.setStat cv.pgno (fun ps => { ps with pageType := PT_SYSTEM })
-              ({ cv with function := FN_MOT }, n, e, false)
-            else
-              ({ cv with function := FN_UNKNOWN, raw := row0 :: List.replicate 25 blankRow,
-                         link := List.replicate LINKS Link.ff, enh := List.replicate ENH_SIZE Triplet.ff,
-                         haveFlof := 0 }, n, [], true)
-          ({ cv with lopPackets := 1, x26 := 0, x27 := 0, x28 := 0 }, n, e, copied)
-      let (cv, n, e3) : Page × Net × List Aux :=
-        if cv.function == FN_UNKNOWN then
-          let fn := functionOfType n (n.getStat cv.pgno).pageType cv.pgno page
-          if fn != FN_UNKNOWN then
-            match convertPage n cv fn with
-            | (some cv', n, e) => (cv', n, e)
-            | (none, n, e) => (cv, n, e)
-          else (cv, n, [])
-        else (cv, n, [])
+      let h := headerPage s.net cv page (sub12 + sub34 * 256).toNat fl.toNat row0
       let rp := s.rp mag0
-      let s := { s with net := n }
-      let s := s.setRp mag0 { rp with page := { cv with ext := { cv.ext with designations := 0 } },
+      let s := { s with net := h.2.1 }
+      let s := s.setRp mag0 { rp with page := { h.1 with ext := { h.1.ext with designations := 0 } },
                                       lopPackets := 0, numTriplets := 0 }
-      (⟨s, ev ++ liftAux (e1 ++ e2 ++ e3), true⟩, copied)
+      (⟨s, t.2 ++ liftAux h.2.2.1, true⟩, h.2.2.2)
 
 /-! ## rows 1..25, X/26 -/
 def processRow (s : St) (mag0 mag8 packet : Nat) (v : View) : Res :=
